@@ -90,7 +90,7 @@ Ltac ostep :=
   | |- context [put_u16 ?c ?v] => rewrite (put_u16_fits c v) by ccap
   | |- context [put_lp ?c ?b] => rewrite (put_lp_fits c b) by ccap
   | |- context [if (?a <=? 65535) then SOk _ else SErr _] =>
-      replace (a <=? 65535) with true by (symmetry; apply N.leb_le; first [assumption | reflexivity])
+      replace (a <=? 65535) with true by (symmetry; apply N.leb_le; first [assumption | rewrite ?blen_mqisdp, ?blen_mqtt; lia])
   end.
 
 Definition will_strs_ok (w : option message) : Prop :=
